@@ -393,6 +393,16 @@ pub fn filter_atom(pair: Pair<Rule>) -> Parsed<FilterAtom> {
                     _ => (),
                 }
             }
+            // RFC 9535 2.4.3: a function used as a test expression must return a logical
+            // (or nodes) result; the value returned by length/count/value must be compared
+            if let Some(Test::Function(tf)) = &test_expr {
+                if tf.is_comparable() {
+                    return Err(JsonPathError::InvalidJsonPath(format!(
+                        "Function {} returns a value and must be compared",
+                        tf
+                    )));
+                }
+            }
 
             test_expr
                 .map(|expr| FilterAtom::test(expr, not))
